@@ -12,7 +12,7 @@ from . import c09
 from .c09 import ERR, FLAG, LOG, octx
 
 PROP = "C15"
-FLOORS = {"C15.R1": 24, "C15.R2": 6, "C15.R3": 5, "C15.R4": 6}
+FLOORS = {"C15.R1": 24, "C15.R2": 6, "C15.R3": 5, "C15.R4": 6, "C15.R5": 6}
 META = {
     "explanation": "Rectangular log: every region that appends a row (the body of the step loop -- helpers inlined --, "
                    "add_point_to_log) appends to each key of the `_log` literal exactly once on every normal path (path-sensitive "
@@ -277,3 +277,13 @@ def check(col: Collector):
     c09.check_reload(col, rule="C15.R2")
     _take_best(col)
     _row_consistency(col)
+    # "within all tolerances" in step() is the flag the merit function computes: same obligations as C09.R3/R4
+    from .common import shared
+    shared(col, "C15.R5", [c09._flag],
+           why="step() stops and skips take_best on the strength of last_point_within_tol")
+    # the row logged after a solver step pairs knobs/penalty of the committed point with the merit function's side state
+    # (target values, tol_met) -- they belong to one point only if the committed point is the one evaluated last
+    from . import c10
+    from .common import construct_tag
+    shared(col, "C15.R5", [c10._limits], select=lambda o: construct_tag(o) == "trial-equals-commit",
+           why="the log row reads the merit function's last evaluation next to the committed knobs")
